@@ -20,6 +20,9 @@ var verifServerPool = []string{"alpha:1", "b", "node-c.internal:9898", "d4", "e"
 
 func verifKeys() []string {
 	if vsymbolic() {
+		if vparam("LONG", 0) == 1 {
+			return []string{"0123456789abcdef0123456789abcdef0123456789abcdef0123456789abcdef-a-long-user-id"}
+		}
 		return []string{"k"}
 	}
 	keys := make([]string, 0, 3000)
@@ -30,8 +33,16 @@ func verifKeys() []string {
 }
 
 // rankedServers returns n server names ordered by ascending score for key (nil on a tie).
+// long names: a common prefix longer than any fixed buffer one might be tempted to hash through
+var verifLongPrefix = "shard-server-with-a-very-long-fully-qualified-domain-name.eu-central-1.compute.internal.example.org:"
+
 func rankedServers(key string, n int) []string {
 	names := append([]string{}, verifServerPool[:n]...)
+	if vparam("LONG", 0) == 1 {
+		for i := range names {
+			names[i] = verifLongPrefix + names[i]
+		}
+	}
 	if vsymbolic() {
 		for i := 0; i+1 < n; i++ {
 			vassume(xxhash.Sum64String(key+names[i]) < xxhash.Sum64String(key+names[i+1]))
